@@ -133,6 +133,39 @@ def conforms_up_to_site_order(spec, comp):
     return None
 
 
+def conforms_up_to_site_merging(spec, comp):
+    """Two call sites of the same (child, fn, mode) with the same continuation may be written as one (a shared tail call), and one may
+    be duplicated into two arms.  If a body does not conform as numbered, both automata are compared again with same-named sites
+    identified (`X#2` -> `X`): every computed transition must still be an instance of a contract transition of the merged node and
+    every contract transition must still be realised - an edge that exists at one site only in the code (a missing rewind, an extra
+    exit) has no counterpart in the merged contract either way."""
+    def strip(txt):
+        return re.sub(r"#\d+(?![\w])", "", txt) if isinstance(txt, str) else txt
+
+    def q(edges):
+        out, seen = [], set()
+        for e in edges:
+            e2 = C.Edge()
+            e2.src, e2.res, e2.dst = strip(e.src), e.res, strip(e.dst)
+            e2.pos = strip(e.pos) if isinstance(e.pos, str) else frozenset(strip(x) for x in e.pos)
+            e2.effects = tuple(strip(x) for x in e.effects)
+            e2.facts = e.facts
+            e2.line = getattr(e, "line", None)
+            e2.facts_sat = getattr(e, "facts_sat", None)
+            k = (e2.src, e2.res, e2.dst, e2.pos if isinstance(e2.pos, str) else tuple(sorted(e2.pos)), e2.effects, e2.facts)
+            if k not in seen:
+                seen.add(k)
+                out.append(e2)
+        return out
+    if not any("#" in x for e in list(spec) + list(comp) for x in (e.src, e.dst)):
+        return None
+    spec2, comp2 = q(spec), q(comp)
+    probs2, n2 = C.conforms(spec2, comp2)
+    if not probs2:
+        return probs2, n2, comp2
+    return None
+
+
 def rule_contracts(prop, config="all", floor_key=None):
     run = RP.get_run(config)
     facts = run.facts
@@ -179,6 +212,11 @@ def rule_contracts(prop, config="all", floor_key=None):
             if alt is not None:
                 probs, n, comp = alt
                 r.info.setdefault("compared_up_to_site_order", []).append(u)
+            else:
+                alt = conforms_up_to_site_merging(spec, comp)
+                if alt is not None:
+                    probs, n, comp = alt
+                    r.info.setdefault("compared_up_to_site_merging", []).append(u)
         nedges += n
         r.obligations += n
         bad_keys = set()
